@@ -305,4 +305,86 @@ theorem applyOp_spec (w : World) (o : HOp) :
             | error e => left; simp
             | ok w' => right; left; simp
 
+
+/-! ## round 4 — fixed-point arithmetic of the validator's exchange rate (`sdk.Dec`, 18 decimals, banker's rounding) -/
+
+theorem chopRound_mul (n : Nat) : chopRound (n * shareScale) = n := by
+  have hS : 0 < shareScale := by decide
+  simp [chopRound, Nat.mul_div_cancel _ hS, Nat.mul_mod_left, hS]
+
+theorem chopRound_le (q : Nat) : 2 * chopRound q * shareScale ≤ 2 * q + shareScale := by
+  unfold chopRound shareScale
+  simp only []
+  split
+  · omega
+  · split
+    · omega
+    · split <;> omega
+
+theorem tokens_bound (r T D : Nat) :
+    2 * shareScale * (chopRound (r * T * shareScale * shareScale / D) / shareScale) * D ≤ 2 * shareScale * r * T + D := by
+  have hS : 0 < shareScale := by decide
+  generalize hQ : r * T * shareScale * shareScale / D = Q
+  have hq : Q * D ≤ r * T * shareScale * shareScale := by rw [← hQ]; exact Nat.div_mul_le_self _ _
+  have hX := chopRound_le Q
+  generalize chopRound Q = X at hX ⊢
+  have hout : X / shareScale * shareScale ≤ X := Nat.div_mul_le_self _ _
+  generalize X / shareScale = out at hout ⊢
+  have h1 : 2 * (X * D) * shareScale ≤ 2 * (Q * D) + shareScale * D := by
+    have := Nat.mul_le_mul_right D hX
+    rw [Nat.add_mul] at this
+    calc 2 * (X * D) * shareScale = 2 * X * shareScale * D := by ac_rfl
+      _ ≤ 2 * Q * D + shareScale * D := this
+      _ = 2 * (Q * D) + shareScale * D := by ac_rfl
+  have h2 : out * D * shareScale ≤ X * D := by
+    have := Nat.mul_le_mul_right D hout
+    calc out * D * shareScale = out * shareScale * D := by ac_rfl
+      _ ≤ X * D := this
+  have h3 : r * T * shareScale * shareScale = r * T * shareScale * shareScale := rfl
+  have e1 : 2 * shareScale * out * D = 2 * shareScale * (out * D) := by ac_rfl
+  have e2 : 2 * shareScale * r * T = 2 * (r * T * shareScale) := by ac_rfl
+  rw [e1, e2]
+  generalize X * D = a at h1 h2
+  generalize Q * D = b at h1 hq
+  generalize out * D = e at h2 ⊢
+  generalize r * T * shareScale = c at hq ⊢
+  unfold shareScale at *
+  omega
+
+theorem removal_bound (T D r : Nat) (hD : 0 < D) :
+    2 * shareScale * (T * (D - r)) ≤
+      2 * shareScale * ((T - (if D - r = 0 then T else chopRound (r * T * shareScale * shareScale / D) / shareScale)) * D) + D := by
+  split
+  · rename_i h0; simp [h0]
+  · rename_i h0
+    have hb := tokens_bound r T D
+    generalize chopRound (r * T * shareScale * shareScale / D) / shareScale = out at hb ⊢
+    have hr : r * T ≤ T * D - T := by
+      have : r ≤ D - 1 := by omega
+      calc r * T ≤ (D - 1) * T := Nat.mul_le_mul_right T this
+        _ = T * D - T := by rw [Nat.sub_mul, Nat.one_mul, Nat.mul_comm]
+    have hTD : T ≤ T * D := Nat.le_mul_of_pos_right T hD
+    have e0 : 2 * shareScale * r * T = 2 * shareScale * (r * T) := by ac_rfl
+    have e1 : 2 * shareScale * out * D = 2 * shareScale * (out * D) := by ac_rfl
+    rw [e0, e1] at hb
+    have hle : out ≤ T := by
+      apply Nat.le_of_not_lt
+      intro hlt
+      have h1 : (T + 1) * D ≤ out * D := Nat.mul_le_mul_right D hlt
+      rw [Nat.add_mul, Nat.one_mul] at h1
+      generalize T * D = td at *
+      generalize out * D = od at *
+      generalize r * T = rt at *
+      unfold shareScale at *
+      omega
+    have e2 : T * (D - r) = T * D - r * T := by rw [Nat.mul_sub, Nat.mul_comm T r]
+    have e3 : (T - out) * D = T * D - out * D := Nat.sub_mul _ _ _
+    have h4 : out * D ≤ T * D := Nat.mul_le_mul_right D hle
+    rw [e2, e3]
+    generalize T * D = td at *
+    generalize out * D = od at *
+    generalize r * T = rt at *
+    unfold shareScale at *
+    omega
+
 end FxVerif.Proofs.C10
